@@ -92,3 +92,13 @@ Theorem aborted_restore_root_listed_not_finalized :
   has_rid 2 (roots_at (m_meta m) 3) = true /\ d_last (m_meta m) = None /\ m_status m 3 2 = 3.
 Proof. exact abort_leaves_root_listed. Qed.
 Print Assumptions aborted_restore_root_listed_not_finalized.
+
+Theorem restore_then_normal_operation :
+  let m1 := m_reopen (m_run mdb0 h_local) in
+  has_rid 4 (roots_at (m_meta m1) 3) = true /\ d_last (m_meta m1) = Some 2 /\
+  a_puts (aux_get 3 4 (b_aux (c_b (m_c m1)))) = [] /\
+  let m2 := m_run m1 h_continue in
+  d_last (m_meta m2) = Some 3 /\ has_rid 4 (roots_at (m_meta m2) 3) = false /\
+  m_status m2 3 5 = 1 /\ m_status m2 2 3 = 1 /\ m_status m2 1 2 = 1.
+Proof. exact restore_then_normal_operation_l. Qed.
+Print Assumptions restore_then_normal_operation.
